@@ -29,8 +29,8 @@ bottom edge):
 
 Model.  A text canvas is its real fields: `_text` a list of bytes rows, `_attr` / `_cs` lists of run-length lists, `_maxcol`.
 Rows are abstract texts of any length with run-length lists of any length (contracts/C02_rle.py: expansion view `at`);
-the NUMBER of rows is spelled out per contract instance (1 row: the primary contract; `#no-rows`, `#two-rows`, `#three-rows`:
-every row window [trim_top, trim_top + rows) of such a canvas, with rows above and below the window), because a list of
+the NUMBER of rows is spelled out per contract instance (1 row: the primary contract; `#no-rows`, `#two-rows[-any-columns]`,
+`#three-rows`: every row window [trim_top, trim_top + rows) of such a canvas, with rows above and below the window), because a list of
 abstract texts of symbolic length is out of the engine's reach (as for TextCanvas.__init__, contracts/C02_canvas.py); the loop
 over the rows is executed row by row, the loop over the runs of a row goes through its invariant.  "For every run / every byte of a run" is proved for arbitrary constants R, Q
 (pyvc.values.arbitrary: universal generalisation), which keeps the queries free of nested quantifiers.
@@ -56,7 +56,8 @@ CV = "urwid/canvas.py:"
 UT = "urwid/util.py:"
 PROPS = ("C02", "C17", "C04")
 # canvases of this many rows (every row window of each), one contract instance per group (verified in parallel)
-ROW_GROUPS = {None: (1,), "no-rows": (0,), "two-rows": (2,), "three-rows": (3,)}
+# alias -> (row counts, whole width and no map only?)
+ROW_GROUPS = {None: ((1,), False), "no-rows": ((0,), False), "two-rows": ((2,), True), "two-rows-any-columns": ((2,), False), "three-rows": ((3,), False)}
 
 
 # ------------------------------------------------------------------------------------------------ the canvas model
@@ -377,14 +378,19 @@ def _text_content_callee(old, s, a, result):
 _TEXT_KW = dict(globals_=ENC, inline=("TextCanvas.cols", "TextCanvas.rows"), replayable=False, qf_branching=True, branch_timeout_ms=R.QBT,
                 cover_timeout_ms=R.CVT, cover_witness=_witness, no_xcheck="inputs are abstract texts")
 
-for _alias, _counts in ROW_GROUPS.items():
+for _alias, (_counts, _whole_width) in ROW_GROUPS.items():
 
     # (the instances with more rows differ in the row window only -- C02's grid; the per-cell clauses that C17 / C04 rely on
     # are the same text and are verified for every row of every instance)
     @contract(CV + "TextCanvas.content", property=PROPS if _alias is None else ("C02",), **_TEXT_KW, **({"alias": _alias} if _alias else {}), setup=_setup_rows(_counts))
     class text_content:
         self_shape = TEXTCANVAS
-        params = dict(trim_left=Int, trim_top=Int, cols=Opt(Int), rows=Opt(Int), attr=Opt(AMAP))
+        # (`#two-rows` is about the row window: every row window of a two-row canvas over its whole width, without a map -- the
+        # quick tier's instance; the column window and the map are the same code for every row and are verified in full
+        # generality on the one-row instance, and together with every row window by `#two-rows-any-columns` / `#three-rows`
+        # in the thorough tier: contracts/tuning.py)
+        params = (dict(trim_left=Const(0), trim_top=Int, cols=Const(None), rows=Opt(Int), attr=Const(None)) if _whole_width else
+                  dict(trim_left=Int, trim_top=Int, cols=Opt(Int), rows=Opt(Int), attr=Opt(AMAP)))
         result = YROWS
         raises = (ValueError,)
         generator_as_list = True
